@@ -115,7 +115,11 @@ def _case(rng):
         order = list(st['dims'])
         rng.shuffle(order)
         ops.append(['binopperm', rng.choice(['add', 'mul']), order])
-    return dict(spec=spec, ops=ops)
+    case = dict(spec=spec, ops=ops)
+    if rng.random() < 0.25:
+        # the operations that have an in-place form are run in that form (harness-only: the model's answer is the same)
+        case['inplace'] = True
+    return case
 
 
 def _scenario(rng):
@@ -205,6 +209,64 @@ def _impl_scenario(c):
                 got = np.asarray(g.variables['A'][:])
                 if got.shape != want.shape or not (got == want).all():
                     states.append(dict(err='Content', msg='A has shape %s, numpy gives %s' % (got.shape, want.shape)))
+            elif c['kind'] == 'pncrename_existing':
+                # the functional front end of rename, onto a name that exists already (outside the domain: it raises, or what
+                # it returns is well formed)
+                from PseudoNetCDF.core._functions import pncrename
+                f = pnc.PseudoNetCDFFile()
+                f.createDimension('lat', c['ny'])
+                f.createDimension('lon', c['nx'])
+                v = f.createVariable('V', 'd', ('lat', 'lon'))
+                v[:] = 0
+                w = f.createVariable('W', 'd', ('lon',))
+                w[:] = 1
+                rec(f, 'built')
+                try:
+                    g = pncrename(f, 'd,lat,lon')
+                except (ValueError, KeyError):
+                    g = None
+                if g is not None:
+                    rec(g, "pncrename 'd,lat,lon'")
+                g = pncrename(f, 'd,lat,y')
+                rec(g, "pncrename 'd,lat,y'")
+            elif c['kind'] == 'ioapi_points_cf':
+                # an IOAPI file that also has the 1-D CF coordinates y(ROW), x(COL); a pointwise ROW / COL selection
+                from . import c10 as c10_
+                f, _ = c10_.build(dict(kind='arrays', lv=[64, 55, 22, 5], name16=False, nc=c['nx'], nl=1, nr=c['ny'], nt=c['nt'], nv=1,
+                                       owntflag=False, sdate=2019365, stime=220000, tstep=10000, withcf=False))
+                for k, d, n in (('y', 'ROW', c['ny']), ('x', 'COL', c['nx'])):
+                    if k in c['which']:
+                        cv = pnc.PseudoNetCDFFile.createVariable(f, k, 'd', (d,))
+                        cv[:] = np.arange(n, dtype='d')
+                rec(f, 'built')
+                g = f.sliceDimensions(ROW=c['iy'], COL=c['ix'])
+                rec(g, 'sliceDimensions(ROW=%s, COL=%s)' % (c['iy'], c['ix']))
+                rec(g.copy(), 'copy')
+            elif c['kind'] == 'stack_disk_one':
+                # two files opened from netCDF, the second given to stack as it is (documented: an instance or a list)
+                import os
+                import tempfile
+                import shutil
+                d = tempfile.mkdtemp(prefix='pncverif_c01s_')
+                try:
+                    f = pnc.PseudoNetCDFFile()
+                    f.createDimension('t', c['nt']).setunlimited(True)
+                    f.createDimension('x', c['nx'])
+                    a = f.createVariable('A', 'd', ('t', 'x'))
+                    a[:] = np.arange(a.size, dtype='d').reshape(a.shape)
+                    b = f.createVariable('B', 'd', ('x',))
+                    b[:] = 1
+                    p1 = os.path.join(d, 'a.nc')
+                    f.save(p1, verbose=0).close()
+                    n1, n2 = pnc.pncopen(p1, format='netcdf'), pnc.pncopen(p1, format='netcdf')
+                    rec(n1, 'opened')
+                    for first, lab in ((n1, 'disk.stack(disk)'), (f, 'memory.stack(disk)')):
+                        g = first.stack(n2, 't')
+                        rec(g, lab)
+                        if g.variables['A'].shape != (2 * c['nt'], c['nx']):
+                            states.append(dict(err='Content', msg='%s: A has shape %s' % (lab, g.variables['A'].shape)))
+                finally:
+                    shutil.rmtree(d, True)
             elif c['kind'] == 'ioapi_scalar':
                 from PseudoNetCDF.cmaqfiles._ioapi import ioapi_base
                 nt, nz, ny, nx = c['nt'], c['nz'], c['ny'], c['nx']
@@ -445,6 +507,15 @@ def gen(rng, tier):
     n = 300 if tier == 'quick' else 10000
     out = [_case(rng) for _ in range(n)]
     out += [_scenario(rng) for _ in range(n // 5)]
+    # on every run: the functional rename onto an existing name, a pointwise selection of an IOAPI file that has the 1-D CF
+    # coordinates, one file from disk as the argument of stack
+    for _ in range(max(2, n // 100)):
+        ny, nx = rng.randint(2, 4), rng.randint(2, 4)
+        out.append(dict(family='scenario', kind='pncrename_existing', ny=ny, nx=nx))
+        npts = rng.randint(1, 3)
+        out.append(dict(family='scenario', kind='ioapi_points_cf', ny=ny, nx=nx, nt=rng.randint(1, 2), which=rng.choice(['y', 'x', 'yx']),
+                        iy=[rng.randrange(ny) for _ in range(npts)], ix=[rng.randrange(nx) for _ in range(npts)]))
+        out.append(dict(family='scenario', kind='stack_disk_one', nt=rng.randint(1, 3), nx=rng.randint(1, 3)))
     # IOAPI files (the subclass overrides most operations and re-derives dimensions and metadata): the C10 sequences,
     # judged here by the well-formedness predicate and the TSTEP-unlimited clause
     for _ in range(n // 6):
@@ -452,8 +523,25 @@ def gen(rng, tier):
     return out
 
 
-def _apply(f, op):
+def _apply(f, op, inplace=False):
     k = op[0]
+    if inplace and k == 'subset' and any(n not in f.variables for n in op[1]):
+        inplace = False      # the in-place form ignores names that are no variables (the copying form raises): not specified
+    if inplace and k in ('subset', 'renamevar', 'renamedim', 'renamedims', 'insertdim', 'reorder'):
+        # the in-place form of the operation: it must leave the receiver as the copying form leaves its result
+        kw = dict(inplace=True)
+        if k == 'subset':
+            return f.subsetVariables(list(op[1]), exclude=op[2], **kw)
+        if k == 'renamevar':
+            return f.renameVariable(op[1], op[2], **kw)
+        if k == 'renamedim':
+            return f.renameDimension(op[1], op[2], **kw)
+        if k == 'renamedims':
+            return f.renameDimensions(**dict(kw, **{o: n for o, n in op[1]}))
+        if k == 'insertdim':
+            return f.insertDimension(newonly=op[3], multionly=op[4], before=op[5], after=op[6], **dict(kw, **{op[1]: op[2]}))
+        if k == 'reorder':
+            return f.reorderDimensions(list(f.dimensions), op[1], **kw)
     if k == 'copy':
         return f.copy()
     if k == 'slice':
@@ -503,13 +591,13 @@ def impl(case):
     states = []
     with lib.pnc_warnings():
         for op in case['ops']:
+            un = {k: bool(f.dimensions[k].isunlimited()) for k in f.dimensions}
             try:
                 with np.errstate(all='ignore'):
-                    g = _apply(f, op)
+                    g = _apply(f, op, inplace=bool(case.get('inplace')))
             except Exception as e:
                 states.append(dict(err=type(e).__name__, msg=str(e)[:80]))
                 break
-            un = {k: bool(f.dimensions[k].isunlimited()) for k in f.dimensions}
             states.append(dict(obs=pfile.observe(g), wf=_wf(g), unlim_before=un))
             f = g
     return dict(states=states)
